@@ -62,6 +62,9 @@ def harnesses(tier, seed):
             jobs.append(dict(fn='h_approx', params=dict(method=method, form=form, step_calc=sc, step=step, level=level), max_paths=20000))
     jobs.append(dict(fn='h_colored', params=dict(method='fd')))
     jobs.append(dict(fn='h_colored', params=dict(method='cs')))
+    # a component that colors the partials of SOME inputs and approximates another input with its own, different, settings
+    for after in (True, False):
+        jobs.append(dict(fn='h_colored_subset', params=dict(other_declared_after=after)))
     return jobs
 
 
@@ -223,3 +226,65 @@ def h_colored(ctx, method):
             ctx.check('coloring_in_use', p.model._coloring_info.coloring is not None)
     ctx.eq('colored==uncolored', res[True], res[False], 1e-9)
     ctx.observe('J', res[False])
+
+
+class _Subset(om.ExplicitComponent):
+    """y_i = x_i^3 + 2 x_i + z0 x_i + z1^3: diagonal wrt x (colorable), dense wrt z"""
+
+    def __init__(self, colored, after, xp):
+        super().__init__()
+        self.colored, self.after, self.xp = colored, after, xp
+
+    def setup(self):
+        self.add_input('x', self.xp.ones(3))
+        self.add_input('z', self.xp.ones(2))
+        self.add_output('y', self.xp.ones(3))
+        kw = dict(method='fd', form='forward', step=2.0 ** -10)
+
+        def other():
+            self.declare_partials('y', 'z', method='fd', form='central', step=2.0 ** -3)
+        if not self.after:
+            other()
+        if self.colored:
+            self.declare_coloring(wrt='x*', show_summary=False, show_sparsity=False, num_full_jacs=2, tol=1e-20, **kw)
+        else:
+            self.declare_partials('y', 'x', **kw)
+        if self.after:
+            other()
+
+    def compute(self, inputs, outputs):
+        x, z = inputs['x'], inputs['z']
+        outputs['y'] = x * x * x + 2 * x + z[0] * x + z[1] * z[1] * z[1]
+
+
+def h_colored_subset(ctx, other_declared_after):
+    """partial coloring: the colored columns use the settings given to declare_coloring, whatever other approximations the
+    component declares, in whatever order"""
+    _install(ctx)
+    res = {}
+    x = z = None
+    for colored in (False, True):
+        p = om.Problem()
+        p.model.add_subsystem('c', _Subset(colored, other_declared_after, ctx.np))
+        p.setup()
+        p.final_setup()
+        p.set_val('c.x', ctx.consts([0.37, -1.2, 2.1]))
+        p.set_val('c.z', ctx.consts([0.8, -0.45]))
+        p.run_model()
+        p.compute_totals(of=['c.y'], wrt=['c.x', 'c.z'])
+        if x is None:
+            x, z = ctx.reals('x', 3, -4, 4), ctx.reals('z', 2, -4, 4)
+        p.set_val('c.x', x)
+        p.set_val('c.z', z)
+        p.run_model()
+        res[colored] = p.compute_totals(of=['c.y'], wrt=['c.x', 'c.z'], return_format='flat_dict')
+        if colored:
+            ctx.check('coloring_in_use', p.model.c._coloring_info.coloring is not None)
+    for k in res[False]:
+        ctx.eq(f'colored==uncolored{list(k)}', res[True][k], res[False][k], 1e-9)
+    # and the uncolored reference is the forward quotient with the declared step
+    h = 2.0 ** -10
+    for i in range(3):
+        want = ((x[i] + h) * (x[i] + h) * (x[i] + h) - x[i] * x[i] * x[i]) / h + 2 + z[0]
+        ctx.eq(f'forward_quotient[{i}]', res[True]['c.y', 'c.x'][i, i], want, 1e-9)
+    ctx.observe('J', np.asarray(res[False]['c.y', 'c.x']))
